@@ -191,3 +191,7 @@ impl<T: FromStr + Display + Hash + Ord> TxtAttrs<T> {
         Ok(signed_packet)
     }
 }
+
+#[cfg(kani)]
+#[path = "/verif/kani/iroh_dns/attrs.rs"]
+mod verif_kani;
